@@ -266,7 +266,7 @@ class RLock:
         if SCHED and SCHED.me():
             if getattr(SCHED, "lock_yields", False):
                 SCHED.yield_point()
-            if self.owner is not None:
+            while self.owner is not None:      # woken when free, but somebody may have taken it before we run: look again
                 SCHED.block(lambda: self.owner is None, None)
             if getattr(SCHED, "lock_yields", False):
                 SCHED.log("acquire", self.name or "lock")
